@@ -166,6 +166,16 @@ CLAIMS['C17'] = dict(
          'than mutexes (one memo table is listed as undecided), and that every write to Settings/Platform/Standards/Library members in that code goes to a local copy.',
     design='3/C17', note='Independence of the findings themselves for every input, and the shared Suppressions state (C23/C24), are not decided.')
 
+CLAIMS['C29'] = dict(
+    technique='static analysis: type-directed census of loops over address-ordered containers (pointer-keyed std::set/map/unordered_* with the default comparator/hasher) '
+              'with an effect classification of each loop body over the call graph (can report a finding / appends to the dump), must-pass-through of a sort between '
+              'readdir() and the file lister\'s return, who-may-call rule for random/pid sources',
+    text='Decides that no loop whose iteration order is the order of object addresses has a body that can report a finding or (inside a dump writer) append to the dump, that '
+         'every return of FileLister::addFiles that carries names collected through readdir() passes a sort, and that no rand/random_device/getpid/thread-id/tmpnam call is '
+         'reachable from the per-file analysis or the dump writers (clock reads for user-requested time limits are counted, not armed).',
+    design='3/C29', note='Order dependence that flows through an intermediate container filled in address order, std::hash<std::string>-ordered containers and the multi-job '
+                         'multiset clause (C15) are not decided.')
+
 NOT_APPLICABLE = {
     'C01': 'soundness of inferred values vs. concrete executions of arbitrary programs; needs an executing/symbolic oracle, no structural necessary condition in valueflow.cpp',
     'C02': 'same as C01, for container sizes',
